@@ -174,3 +174,31 @@ mod kani_harnesses {
         kani::cover!(true);
     }
 }
+
+// C15: slice decoders of the curve crate are total (any length 0..=65): Err for every length != 32, never a panic
+#[cfg(kani)]
+mod kani_c15 {
+    use crate::edwards::CompressedEdwardsY;
+    use crate::ristretto::CompressedRistretto;
+    use crate::montgomery::MontgomeryPoint;
+    #[kani::proof] #[kani::unwind(68)]
+    fn c15_compressed_edwards_from_slice_total() {
+        let buf: [u8; 66] = kani::any(); let len: usize = kani::any(); kani::assume(len <= 66);
+        let r = CompressedEdwardsY::from_slice(&buf[..len]);
+        assert!(r.is_ok() == (len == 32));
+        if let Ok(c) = r { let mut i = 0; while i < 32 { assert!(c.0[i] == buf[i]); i += 1; } }
+        let r2 = CompressedEdwardsY::try_from(&buf[..len]);
+        assert!(r2.is_ok() == (len == 32));
+        kani::cover!(len == 32); kani::cover!(len == 33);
+    }
+    #[kani::proof] #[kani::unwind(68)]
+    fn c15_compressed_ristretto_from_slice_total() {
+        let buf: [u8; 66] = kani::any(); let len: usize = kani::any(); kani::assume(len <= 66);
+        let r = CompressedRistretto::from_slice(&buf[..len]);
+        assert!(r.is_ok() == (len == 32));
+        if let Ok(c) = r { let mut i = 0; while i < 32 { assert!(c.0[i] == buf[i]); i += 1; } }
+        let r2 = CompressedRistretto::try_from(&buf[..len]);
+        assert!(r2.is_ok() == (len == 32));
+        kani::cover!(len == 32); kani::cover!(len == 0);
+    }
+}
